@@ -1,7 +1,9 @@
 (* Props/C17.v — property C17: the traffic-light state follows the cycle definition.
-   Statements only; proofs are [exact <lemma of Proofs/TrafficLight.v>]. *)
+   Statements only; proofs are [exact <lemma of Proofs/TrafficLight.v or Proofs/SrcTrafficLight.v>].
+   The theorems are about Model/TrafficLight.v; C17_model_is_source states that this model is the Gallina text
+   generated on every run from commonroad/scenario/traffic_light.py by harness/vlib/py2coq.py. *)
 From Coq Require Import ZArith List Bool.
-From CR Require Import Model.TrafficLight Proofs.TrafficLight.
+From CR Require Import Model.TrafficLight Proofs.TrafficLight Gen.Src_traffic_light Proofs.SrcTrafficLight.
 Import ListNotations.
 Open Scope Z_scope.
 
@@ -38,8 +40,17 @@ Proof.
   simpl. split; [discriminate|]. split; [repeat constructor|]. repeat split; vm_compute; reflexivity.
 Qed.
 
+(* the model IS the translated source: cycle_init_timesteps, TrafficLightCycle.get_state_at_time_step (an exception
+   of the source = None of the model) and TrafficLight.get_state_at_time_step *)
+Theorem C17_model_is_source : forall c l t,
+  src_init_steps c = init_steps (c_offset c) (map duration (c_elements c)) /\
+  src_state_at c t = res_of_option (state_at (c_elements c) (c_offset c) t) /\
+  src_light_state_at l t = res_of_option (light_state_at (c_elements (l_cycle l)) (c_offset (l_cycle l)) t).
+Proof. exact (fun c l t => conj (src_init_steps_eq c) (conj (src_state_at_eq c t) (src_light_state_at_eq l t))). Qed.
+
 Print Assumptions C17_state_in_window.
 Print Assumptions C17_windows_partition.
 Print Assumptions C17_periodic.
 Print Assumptions C17_light_agrees.
 Print Assumptions C17_nonvacuous.
+Print Assumptions C17_model_is_source.
